@@ -287,15 +287,7 @@ func (w *World) checkCommitted(h int64, res *BlockResult, block *tmtypes.Block, 
 		}
 		if oa, ob := diffMultiset(multiset(implFrozen), multiset(modelFrozen)); len(oa)+len(ob) > 0 {
 			v := w.violate("diff.stake.unbonding", f.propsFor("stake", nil), h, "unbonding stakes differ: only node %v, only model %v", trunc(oa), trunc(ob))
-			nz := 0
-			for _, s := range snap.Frozen {
-				if s.ID == zeroHashHex {
-					nz++
-				}
-			}
-			if nz >= 2 {
-				v.Shape = "two-genesis-stakes-unbonding"
-			}
+			_ = v
 		}
 		// every created, not yet refunded stake is recorded in exactly one place
 		for _, s := range m.AllStakes {
@@ -326,15 +318,7 @@ func (w *World) checkCommitted(h int64, res *BlockResult, block *tmtypes.Block, 
 		if lhs.Cmp(rhs) != 0 {
 			v := w.violate("conservation", []string{"C02"}, h, "balances %s + bonded %d + unbonding %d = %s, expected genesis %s + withdrawn %s - slashed %s - evm burns %s = %s (delta %s)",
 				sumBal, sumBonded, sumUnbond, lhs, m.GenesisTotal, m.Withdrawn, m.SlashBurn, m.EvmBurn, rhs, new(big.Int).Sub(lhs, rhs))
-			nz := 0
-			for _, s := range snap.Frozen {
-				if s.ID == zeroHashHex {
-					nz++
-				}
-			}
-			if nz >= 2 {
-				v.Shape = "two-genesis-stakes-unbonding"
-			}
+			_ = v
 		}
 		// ---------------- rewards
 		if h <= 4 && w.BootstrapDirty {
